@@ -575,3 +575,93 @@ func TestRowOrderHook(t *testing.T) {
 	d.s.SetRowOrder(nil)
 	d.query("1|2|3|4|5", "SELECT id FROM t")
 }
+
+// TestKeyLookupVisibility exercises the unique-key access path (WHERE pins a
+// whole unique key) against uncommitted, updated, deleted and re-inserted rows.
+func TestKeyLookupVisibility(t *testing.T) {
+	d := newTDB(t, `CREATE TABLE t (a bigint, b text, v bigint, PRIMARY KEY (a, b)); INSERT INTO t VALUES (1, 'x', 10), (2, 'y', 20);`)
+	a, b := d.ss, testSession(d.s)
+	get := func(ss *session, k int64, s string) string {
+		t.Helper()
+		res, err := ss.do("SELECT v FROM t WHERE b = $2 AND a = $1", k, s)
+		if err != nil {
+			t.Fatal(err)
+		}
+		if res2, _ := ss.do("SELECT v FROM t WHERE b = $2 AND a + 0 = $1", k, s); rowsOf(res2) != rowsOf(res) {
+			t.Fatalf("lookup %q and scan %q disagree", rowsOf(res), rowsOf(res2))
+		}
+		return rowsOf(res)
+	}
+	a.do("BEGIN")
+	a.do("INSERT INTO t VALUES (3, 'z', 30)")
+	a.do("UPDATE t SET a = 11 WHERE a = 1 AND b = 'x'")
+	a.do("DELETE FROM t WHERE a = 2 AND b = 'y'")
+	a.do("INSERT INTO t VALUES (2, 'y', 21)")
+	for _, c := range []struct {
+		k          int64
+		s          string
+		own, other string
+	}{{3, "z", "30", ""}, {1, "x", "", "10"}, {11, "x", "10", ""}, {2, "y", "21", "20"}, {9, "q", "", ""}} {
+		if got := get(a, c.k, c.s); got != c.own {
+			t.Fatalf("own tx (%d,%s): %q", c.k, c.s, got)
+		}
+		if got := get(b, c.k, c.s); got != c.other {
+			t.Fatalf("other tx (%d,%s): %q", c.k, c.s, got)
+		}
+	}
+	if res, _ := a.do("SELECT v FROM t WHERE a = $1 AND b = $2", nil, "x"); rowsOf(res) != "" {
+		t.Fatal("NULL key matched")
+	}
+	a.do("ROLLBACK")
+	for _, c := range [][3]string{{"3", "z", ""}, {"1", "x", "10"}, {"11", "x", ""}, {"2", "y", "20"}} {
+		var k int64
+		fmt.Sscan(c[0], &k)
+		if got := get(b, k, c[1]); got != c[2] {
+			t.Fatalf("after rollback (%s,%s): %q", c[0], c[1], got)
+		}
+	}
+	// correlated lookups (anti-join) and lookups in UPDATE/DELETE
+	d.exec("CREATE TABLE f (a bigint, b text, PRIMARY KEY (a, b)); INSERT INTO f VALUES (2, 'y')")
+	d.query("1,x", "SELECT a, b FROM t e WHERE NOT EXISTS (SELECT 1 FROM f WHERE f.a = e.a AND f.b = e.b)")
+	if tag := d.exec("UPDATE t SET v = v + 1 WHERE a = 2 AND b = 'y' AND v = 20").tag; tag != "UPDATE 1" {
+		t.Fatal(tag)
+	}
+	if tag := d.exec("DELETE FROM t WHERE a = 2 AND b = 'y' AND v = 20").tag; tag != "DELETE 0" {
+		t.Fatal(tag)
+	}
+	if tag := d.exec("DELETE FROM t WHERE a = 2 AND b = 'y'").tag; tag != "DELETE 1" {
+		t.Fatal(tag)
+	}
+	d.query("1,x,10", "SELECT * FROM t")
+}
+
+func TestMiscSyntax(t *testing.T) {
+	d := newTDB(t, `CREATE TABLE "Odd Name" ("select" bigint PRIMARY KEY, v text DEFAULT 'dflt');
+		CREATE TABLE s (id BIGSERIAL PRIMARY KEY, n int NOT NULL DEFAULT 3 CONSTRAINT positive CHECK (n > 0));`)
+	d.exec(`INSERT INTO "Odd Name" ("select") VALUES (1), (2), (3)`)
+	d.query("1,dflt", `SELECT "select", v FROM "Odd Name" o WHERE o."select" = 1`)
+	d.exec("INSERT INTO s DEFAULT VALUES")
+	d.exec("INSERT INTO s (n) VALUES (DEFAULT), (7)")
+	d.query("1,3|2,3|3,7", "SELECT * FROM s ORDER BY 1")
+	if pe := d.fail("23514", "UPDATE s SET n = 0 WHERE id = 1"); pe.Constraint != "positive" {
+		t.Fatalf("%+v", pe)
+	}
+	d.query("2,3|3,7", "SELECT * FROM s ORDER BY id LIMIT 5 OFFSET 1")
+	d.query("6", `SELECT count(*) FROM "Odd Name" CROSS JOIN s WHERE s.id <> 2`)
+	d.query("9", `SELECT count(*) FROM "Odd Name", s`)
+	d.query("t,f,1,-3", "SELECT 5 > ALL($1::bigint[]), 2 <> ALL($1), 7 % 3, -(6 / 2)", []Value{int64(1), int64(2)})
+	d.query("ab,\\x0102", "SELECT 'a' || 'b', $1::bytea || $2::bytea", []byte{1}, []byte{2})
+	d.query("3", "SELECT /* block /* nested */ comment */ count(*) -- trailing\n FROM s;")
+	d.exec("CREATE INDEX ix ON s (n); DROP INDEX ix; DROP INDEX IF EXISTS ix")
+	d.fail("42704", "DROP INDEX ix")
+	d.exec("START TRANSACTION ISOLATION LEVEL READ COMMITTED")
+	d.exec("UPDATE s SET n = DEFAULT")
+	d.exec("END")
+	d.query("3|3|3", "SELECT n FROM s")
+	d.fail("22012", "SELECT 1 / 0")
+	d.fail("22003", "SELECT 9223372036854775807 + 1")
+	d.fail("42702", `SELECT id FROM s a, s b`)
+	d.fail("42712", `SELECT 1 FROM s, s`)
+	d.fail("42P18", "SELECT $2::bigint")
+	d.fail("42725", "SELECT $1 + $2")
+}
